@@ -234,6 +234,27 @@ func c09PubsubOne(c *vf.Ctx, sub string, i int, r *rand.Rand) string {
 		if !hasPub || hasPriv == filterB {
 			c.Fail(sub, i, "pubsub-address-filtering", fmt.Sprintf("addrs %v filter=%v", maStrings(a.Addrs), filterB), wit())
 		}
+		// (a1) the same CID announced again over pubsub with other addresses (another payload, so gossip carries it as
+		// a new message): it is a recently seen CID and must not be delivered a second time. A marker from A, sent
+		// afterwards, orders the observation.
+		{
+			m1 := message.Message{Cid: cid1}
+			m1.SetAddrs([]multiaddr.Multiaddr{pubAddr})
+			cidM := c09Cid(715000 + i)
+			mm := message.Message{Cid: cidM}
+			mm.SetAddrs([]multiaddr.Multiaddr{pubAddr})
+			if err := snd.Send(context.Background(), m1); err == nil {
+				_ = snd.Send(context.Background(), mm)
+				if _, got := waitFor(colB, 20*time.Second, func(a announce.Announce) bool { return a.Cid.Equals(cidM) }); !got {
+					c.Inconclusive(sub, i, "marker-after-repeated-cid-not-seen", "", nil)
+					return
+				}
+				if nB := countOf(colB, func(a announce.Announce) bool { return a.Cid.Equals(cid1) }); nB != 1 {
+					c.Fail(sub, i, "recently-seen-cid-delivered-again-over-pubsub", fmt.Sprintf("delivered %d times (announced twice over pubsub, with different addresses)", nB), wit())
+				}
+				c.Inc("pubsub_repeated_cid_cases")
+			}
+		}
 		// (a2) a burst from A while a consumer is not asking for the next announcement: all of them are allowed and
 		// new, so all of them are delivered once it does (a second receiver on B's host, nobody calling Next yet)
 		if rcS, err := announce.NewReceiver(hB, topicName, announce.WithTopic(topics[2])); err != nil {
